@@ -1,6 +1,6 @@
 /-
-Facts about what `clean()` returns: membership, length (= occupied slots + set release bits),
-distinct ids; independent of the v4 rotation point.
+Facts about what `clean()` returns: membership, length (= occupied slots + set release bits +
+the parked publish), distinct ids; the v4 order (sorted by send stamp) is a permutation of the table.
 -/
 import Proofs.Lemmas.ClientSInv
 namespace Client
@@ -18,22 +18,47 @@ theorem mem_pubRequests (l : List (Option Pub)) (r : Request) :
   · rintro ⟨p, rfl, hp⟩
     exact ⟨some p, hp, rfl⟩
 
-theorem mem_rot {α} (l : List α) (k : Nat) (x : α) : x ∈ l.drop k ++ l.take k ↔ x ∈ l := by
-  rw [List.mem_append]
-  constructor
-  · rintro (h | h)
-    · exact List.mem_of_mem_drop h
-    · exact List.mem_of_mem_take h
-  · intro h
-    rw [← List.take_append_drop k l, List.mem_append] at h
-    exact h.symm
+/-! ### the v4 sort by send stamp is a permutation of the stored publishes -/
 
-theorem mem_cleanPubs (s : State) (r : Request) :
-    r ∈ cleanPubs s ↔ ∃ p, r = .publish p ∧ some p ∈ s.outgoingPub := by
+theorem insertStamp_perm (x : Nat × Pub) (l : List (Nat × Pub)) : (insertStamp x l).Perm (x :: l) := by
+  induction l with
+  | nil => exact List.Perm.refl _
+  | cons y ys ih =>
+    unfold insertStamp
+    split
+    · exact List.Perm.refl _
+    · exact (List.Perm.cons y ih).trans (List.Perm.swap x y ys)
+
+theorem sortStamped_perm (l : List (Nat × Pub)) : (sortStamped l).Perm l := by
+  induction l with
+  | nil => exact List.Perm.refl _
+  | cons x xs ih =>
+    simp only [sortStamped, List.foldr_cons]
+    exact (insertStamp_perm x _).trans (List.Perm.cons x ih)
+
+theorem stamped_map (pubs : List (Option Pub)) (ord : List Nat) (h : pubs.length ≤ ord.length) :
+    (stamped pubs ord).map (fun x => Request.publish x.2) = pubRequests pubs := by
+  induction pubs generalizing ord with
+  | nil => simp [stamped, pubRequests]
+  | cons a pubs ih =>
+    cases ord with
+    | nil => simp at h
+    | cons o ord =>
+      have := ih ord (by simpa using h)
+      simp only [stamped, pubRequests, List.zip_cons_cons, List.filterMap_cons] at this ⊢
+      cases a <;> simp [this]
+
+theorem cleanPubs_perm {s : State} (h : SInv s) : (cleanPubs s).Perm (pubRequests s.outgoingPub) := by
   unfold cleanPubs
   split
-  · rw [mem_pubRequests]; simp only [mem_rot]
-  · rw [mem_pubRequests]
+  · have hl : s.outgoingPub.length ≤ s.outgoingOrder.length := by rw [h.lenPub, h.lenOrd]; exact Nat.le_refl _
+    rw [← stamped_map s.outgoingPub s.outgoingOrder hl]
+    exact (sortStamped_perm _).map _
+  · exact List.Perm.refl _
+
+theorem mem_cleanPubs {s : State} (h : SInv s) (r : Request) :
+    r ∈ cleanPubs s ↔ ∃ p, r = .publish p ∧ some p ∈ s.outgoingPub := by
+  rw [(cleanPubs_perm h).mem_iff, mem_pubRequests]
 
 theorem length_pubRequests (l : List (Option Pub)) : (pubRequests l).length = occ l := by
   unfold pubRequests occ
@@ -44,17 +69,8 @@ theorem length_pubRequests (l : List (Option Pub)) : (pubRequests l).length = oc
     | none => simpa [List.filterMap_cons] using ih
     | some p => simp [ih]
 
-theorem occ_append (a b : List (Option Pub)) : occ (a ++ b) = occ a + occ b := by
-  simp [occ, List.countP_append]
-
-theorem occ_rot (l : List (Option Pub)) (k : Nat) : occ (l.drop k ++ l.take k) = occ l := by
-  rw [occ_append, Nat.add_comm, ← occ_append, List.take_append_drop]
-
-theorem length_cleanPubs (s : State) : (cleanPubs s).length = occ s.outgoingPub := by
-  unfold cleanPubs
-  split
-  · rw [length_pubRequests, occ_rot]
-  · rw [length_pubRequests]
+theorem length_cleanPubs {s : State} (h : SInv s) : (cleanPubs s).length = occ s.outgoingPub := by
+  rw [(cleanPubs_perm h).length_eq, length_pubRequests]
 
 theorem relOnesFrom_spec (l : List Bool) (off : Nat) (i : Nat) :
     i ∈ relOnesFrom l off ↔ off ≤ i ∧ l[i - off]? = some true := by
@@ -103,22 +119,33 @@ theorem length_relOnesFrom (l : List Bool) (off : Nat) : (relOnesFrom l off).len
     unfold relOnesFrom
     cases b <;> simp [relCount, ih] <;> exact ih _
 
-theorem length_cleanRequests (s : State) :
-    (cleanRequests s).length = occ s.outgoingPub + relCount s.outgoingRel := by
-  simp [cleanRequests, length_cleanPubs, relOnes, length_relOnesFrom]
+theorem length_cleanParked (s : State) : (cleanParked s).length = if s.collision.isSome then 1 else 0 := by
+  unfold cleanParked; cases s.collision <;> rfl
 
-theorem mem_cleanRequests (s : State) (r : Request) :
-    r ∈ cleanRequests s ↔ (∃ p, r = .publish p ∧ some p ∈ s.outgoingPub) ∨ (∃ i, r = .pubrel i ∧ relContains s i = true) := by
+theorem length_cleanRequests {s : State} (h : SInv s) :
+    (cleanRequests s).length = occ s.outgoingPub + relCount s.outgoingRel + (if s.collision.isSome then 1 else 0) := by
+  simp [cleanRequests, length_cleanPubs h, relOnes, length_relOnesFrom, length_cleanParked]
+  omega
+
+theorem mem_cleanRequests {s : State} (h : SInv s) (r : Request) :
+    r ∈ cleanRequests s ↔ (∃ p, r = .publish p ∧ some p ∈ s.outgoingPub) ∨ (∃ i, r = .pubrel i ∧ relContains s i = true) ∨
+      (∃ c, s.collision = some c ∧ r = .publish { c with pkid := 0 }) := by
   unfold cleanRequests
-  rw [List.mem_append, mem_cleanPubs]
+  rw [List.mem_append, List.mem_append, mem_cleanPubs h]
   simp only [List.mem_map, mem_relOnes]
   constructor
-  · rintro (h | ⟨i, hi, rfl⟩)
-    · exact Or.inl h
-    · exact Or.inr ⟨i, rfl, hi⟩
-  · rintro (h | ⟨i, rfl, hi⟩)
-    · exact Or.inl h
-    · exact Or.inr ⟨i, hi, rfl⟩
+  · rintro ((h' | ⟨i, hi, rfl⟩) | h')
+    · exact Or.inl h'
+    · exact Or.inr (Or.inl ⟨i, rfl, hi⟩)
+    · right; right
+      unfold cleanParked at h'
+      cases hc : s.collision with
+      | none => rw [hc] at h'; simp at h'
+      | some c => rw [hc] at h'; simp at h'; exact ⟨c, rfl, h'⟩
+  · rintro (h' | ⟨i, rfl, hi⟩ | ⟨c, hc, rfl⟩)
+    · exact Or.inl (Or.inl h')
+    · exact Or.inl (Or.inr ⟨i, hi, rfl⟩)
+    · right; simp [cleanParked, hc]
 
 theorem pubIds_append (a b : List Request) : pubIds (a ++ b) = pubIds a ++ pubIds b := by
   simp [pubIds, List.filterMap_append]
@@ -188,31 +215,25 @@ theorem slotIds_nodup (l : List (Option Pub))
   have := (slotIds_sorted l 0 (by simpa using h)).1
   exact this.imp (fun h => Nat.ne_of_lt h)
 
-theorem nodup_rot {α} (l : List α) (k : Nat) (h : l.Nodup) : (l.drop k ++ l.take k).Nodup := by
-  rw [← List.take_append_drop k l] at h
-  rw [List.nodup_append] at h ⊢
-  exact ⟨h.2.1, h.1, fun a ha b hb => (h.2.2 b hb a ha).symm⟩
-
-theorem slotIds_drop_take (l : List (Option Pub)) (k : Nat) :
-    slotIds (l.drop k ++ l.take k) = (slotIds l).drop (slotIds (l.take k)).length ++ (slotIds l).take (slotIds (l.take k)).length := by
-  have h : slotIds l = slotIds (l.take k) ++ slotIds (l.drop k) := by
-    rw [← slotIds_append, List.take_append_drop]
-  rw [slotIds_append, h]
-  simp
+theorem pubIds_perm {a b : List Request} (h : a.Perm b) : (pubIds a).Perm (pubIds b) := h.filterMap _
+theorem pubTags_perm {a b : List Request} (h : a.Perm b) : (pubTags a).Perm (pubTags b) := h.filterMap _
 
 theorem pubIds_cleanPubs_nodup {s : State} (h : SInv s) : (pubIds (cleanPubs s)).Nodup := by
   have hn := slotIds_nodup s.outgoingPub (fun i p hp => (h.slotId i p hp).1)
-  unfold cleanPubs
-  split
-  · rw [pubIds_pubRequests, slotIds_drop_take]
-    exact nodup_rot _ _ hn
-  · rw [pubIds_pubRequests]; exact hn
+  rw [(pubIds_perm (cleanPubs_perm h)).nodup_iff, pubIds_pubRequests]
+  exact hn
 
-theorem pubIds_cleanRequests (s : State) : pubIds (cleanRequests s) = pubIds (cleanPubs s) := by
-  simp [cleanRequests, pubIds_append, pubIds_map_pubrel]
+/-- ids of the numbered publishes `clean()` returns (the parked one comes back with id 0) -/
+theorem pubIds_cleanRequests (s : State) :
+    pubIds (cleanRequests s) = pubIds (cleanPubs s) ++ (if s.collision.isSome then [0] else []) := by
+  simp only [cleanRequests, pubIds_append, pubIds_map_pubrel, List.append_nil]
+  congr 1
+  unfold cleanParked; cases s.collision <;> simp [pubIds]
 
-theorem pubTags_cleanRequests (s : State) : pubTags (cleanRequests s) = pubTags (cleanPubs s) := by
-  simp [cleanRequests, pubTags_append, pubTags_map_pubrel]
+theorem pubTags_cleanRequests (s : State) : pubTags (cleanRequests s) = pubTags (cleanPubs s) ++ colTag s.collision := by
+  simp only [cleanRequests, pubTags_append, pubTags_map_pubrel, List.append_nil]
+  congr 1
+  unfold cleanParked colTag; cases s.collision <;> simp [pubTags]
 
 theorem mem_pubIds (l : List Request) (i : Nat) : i ∈ pubIds l ↔ ∃ p, .publish p ∈ l ∧ p.pkid = i := by
   unfold pubIds
@@ -237,24 +258,26 @@ theorem mem_pubTags (l : List Request) (t : Nat) : t ∈ pubTags l ↔ ∃ p, .p
 theorem some_mem_iff_getElem? (l : List (Option Pub)) (p : Pub) : some p ∈ l ↔ ∃ i : Nat, l[i]? = some (some p) :=
   List.mem_iff_getElem?
 
-theorem cleanState_clean (s : State) : cleanRequests (cleanState s) = [] := by
+theorem cleanState_clean {s : State} (h : SInv s) : cleanRequests (cleanState s) = [] := by
+  have hs := h.cleanState
   have h1 : ∀ p, some p ∉ (cleanState s).outgoingPub := by
     intro p hp
     simp [cleanState] at hp
   have h2 : ∀ i, relContains (cleanState s) i = false := by
     intro i
-    cases h : relContains (cleanState s) i with
+    cases h' : relContains (cleanState s) i with
     | false => rfl
     | true =>
-      rw [relContains_eq] at h
-      simp [cleanState, List.getElem?_map] at h
+      rw [relContains_eq] at h'
+      simp [cleanState, List.getElem?_map] at h'
   cases hl : cleanRequests (cleanState s) with
   | nil => rfl
   | cons r rest =>
     have : r ∈ cleanRequests (cleanState s) := by rw [hl]; simp
-    rw [mem_cleanRequests] at this
-    rcases this with ⟨p, _, hp⟩ | ⟨i, _, hi⟩
+    rw [mem_cleanRequests hs] at this
+    rcases this with ⟨p, _, hp⟩ | ⟨i, _, hi⟩ | ⟨c, hc, _⟩
     · exact absurd hp (h1 p)
     · rw [h2 i] at hi; simp at hi
+    · simp [cleanState] at hc
 
 end Client
